@@ -1,5 +1,6 @@
 (* C12 — an interrupted copy-up never leaves a truncated or mixed copy, and is reported.
-   Statements only; proofs in Proofs/FaultyMem.v, FaultyPath.v, FaultyProof.v, FaultyMain.v, UnionWriteShort.v.
+   Statements only; proofs in Proofs/FaultyMem.v, FaultyPath.v, FaultyProof.v, FaultyMain.v, UnionWriteShort.v,
+   FaultyCreate.v.
 
    Setting: base = MemMapFs (m_step), layer = MemMapFs behind the fault injector of
    Model/Faulty.v (faulty_step m_step pl: every Fs and file call on the layer is numbered, the
@@ -23,7 +24,8 @@
      exactly the entry before (same path-map slot, same node), and an error is returned;  or
      a regular file whose bytes are dat. *)
 From AF Require Import Lib.Bytes Lib.Path Lib.Ops Gen.Consts Model.MemFile Model.MemFs Model.Union Model.Cow Model.Cache
-  Model.Faulty Model.Stack Proofs.MemBelow Proofs.FaultyMem Proofs.FaultyProof Proofs.FaultyMain Proofs.UnionWriteShort.
+  Model.Faulty Model.Stack Proofs.MemBelow Proofs.FaultyMem Proofs.FaultyProof Proofs.FaultyMain Proofs.UnionWriteShort
+  Proofs.FaultyCreate.
 Local Open Scope Z_scope.
 
 (* ANY plan with at most one non-Pass entry, faults on the LAYER side *)
@@ -234,6 +236,60 @@ Theorem C12_refuted_union_write_masks_base_short_before_fix :
 Proof. exact (conj union_write_masks_base_short_before_fix union_write_masks_witness). Qed.
 Print Assumptions C12_refuted_union_write_masks_base_short_before_fix.
 
+(* ---- a copy target whose Create can fail half-way: the inner cache of cache(remote, cache(disk, memory)).
+   CacheOnReadFs.Create creates/truncates the file at ITS base (disk) and then at its layer (memory); when the second
+   step fails it returns the error and the disk level keeps an empty file.  copyFile returned that error and left
+   the file: the outer cache then served an EMPTY /d/f as a hit, for ever (found by this property's check:
+   partial-copy:cache2open|cache2openfile|cache2opencreate:L.Create).  Repaired in unionFile.go copyFile: the error
+   branch of `lfh, err := layer.Create(name)` calls layer.Remove(name), as every later failure of the copy already
+   did.  The switch copyfile_removes_after_failed_create is read from the AST of that branch
+   (harness/cmd/afcheck/c12_consts.go); Model/Union.v copy_file_gen follows either value. ---- *)
+
+(* today's source, ANY two filesystems: once the parent directory is there (it existed, or MkdirAll made it) and the
+   layer's Create answers anything but a handle, the copy returns that error, the base is not touched, and the
+   layer is in the state its Remove(name) leaves *)
+Theorem C12_today_failed_create_calls_remove :
+  forall (B L : Type) (bstep : B -> op -> B * res) (lstep : L -> op -> L * res)
+    (sb : B) (sl : L) (name : str) (bh : nat) (sl1 sl2 : L) (r : res),
+  dir_prepared lstep sl name sl1 -> lstep sl1 (Create name) = (sl2, r) -> (forall h, r <> RHandle h) ->
+  copy_file bstep lstep sb sl name bh = (sb, fst (lstep sl2 (Remove name)), Some (create_err r)).
+Proof. exact @failed_create_calls_remove. Qed.
+Print Assumptions C12_today_failed_create_calls_remove.
+
+(* ... and when Remove works as in MemMapFs (layer = MemMapFs behind the injector, the single fault refuses the
+   Create — call number create_call sl name n0: after the Stat of the parent, and after the MkdirAll when the parent is
+   missing): the caller gets the injected error, exactly two more calls were made on the layer (Create, Remove), and
+   the layer has NO entry for the name — an older copy is gone too (first case of three_way), never a half-made
+   file *)
+Theorem C12_today_failed_create_removes_entry : forall (name : str) (pl : plan) (sb sl : mst) (dat : bytes) (o : op)
+    (n0 : nat) (e : err),
+  normalize_path name = name -> name <> s_slash -> amo_from pl n0 ->
+  reg_file sb name dat -> layer_sane sl name -> read_open name o ->
+  pl (create_call sl name n0) = FltFail e ->
+  exists sb' sl',
+    copy_to_layer_with m_step (faulty_step m_step pl) sb (sl, n0) name o
+      = (sb', (sl', S (S (create_call sl name n0))), Some e) /\
+    fs_entry sl' name = None /\ layer_sane sl' name /\ cosmetic sb sb'.
+Proof. exact failed_create_removes_entry. Qed.
+Print Assumptions C12_today_failed_create_removes_entry.
+
+(* the source before the repair (the switch at any value but 1): the layer is left as the failed Create left it.
+   Witness, the two-level cache in the model (b1_run rm 2: remote /d/f = 5 bytes, both cache levels empty, memory's
+   call 2 — the second half of the inner cache's Create — refused with EIO; then a fault-free Open and Read through
+   the outer cache): (error of the copy, /d/f at the disk level, at the memory level, calls memory saw, the next
+   Open, the Read on it).  Switch off: the disk level keeps an EMPTY file and the next read returns no bytes and
+   EOF.  Switch on: neither level has an entry and the next read returns the 5 bytes. *)
+Theorem C12_refuted_failed_create_leaves_half_made_file_before_fix :
+  (forall (B L : Type) (bstep : B -> op -> B * res) (lstep : L -> op -> L * res) (rm : Z)
+      (sb : B) (sl : L) (name : str) (bh : nat) (sl1 sl2 : L) (r : res), rm <> 1 ->
+     dir_prepared lstep sl name sl1 -> lstep sl1 (Create name) = (sl2, r) -> (forall h, r <> RHandle h) ->
+     copy_file_gen bstep lstep rm sb sl name bh = (sb, sl2, Some (create_err r))) /\
+  b1_run 0 2 = Some (Some (E KEIO), Some [], None, 3%nat, RHandle 0, RData [] (Some (E KEOF))) /\
+  b1_run 1 2 = Some (Some (E KEIO), None, None, 4%nat, RHandle 0, RData [1;2;3;4;5]%N None) /\
+  b1_run copyfile_removes_after_failed_create 2 = b1_run 1 2.
+Proof. exact (conj (@failed_create_before_fix) (conj two_level_before_fix (conj two_level_today two_level_source))). Qed.
+Print Assumptions C12_refuted_failed_create_leaves_half_made_file_before_fix.
+
 (* ---- non-vacuity: the hypotheses are satisfiable, and the three outcomes occur ---- *)
 Definition c12_f : str := [47;100;47;102]%N.                    (* "/d/f" *)
 Definition c12_base : mst :=
@@ -270,9 +326,20 @@ Definition c12_run_base (sl : mst) (pl : plan) : option bytes * nat * option err
 Example C12_ex_short_write_leaves_nothing :          (* Stat MkdirAll Create Write(short) Remove Close *)
   c12_run m_init (fault_single 3 (FltShort 2)) = (None, 6%nat, Some (E KShortWrite)).
 Proof. vm_compute. reflexivity. Qed.
-Example C12_ex_create_refused_keeps_old_copy :
-  c12_run c12_old (fault_single 1 (FltFail (E KEIO))) = (Some [9;9]%N, 2%nat, Some (E KEIO)).
+Example C12_ex_stat_refused_keeps_old_copy :         (* Stat(refused): nothing else is called *)
+  c12_run c12_old (fault_single 0 (FltFail (E KEIO))) = (Some [9;9]%N, 1%nat, Some (E KEIO)).
 Proof. vm_compute. reflexivity. Qed.
+(* Stat Create(refused) Remove: since the repair of copyFile the older copy is removed (before it: kept, 2 calls) *)
+Example C12_ex_create_refused_removes_old_copy :
+  c12_run c12_old (fault_single 1 (FltFail (E KEIO))) =
+    if copyfile_removes_after_failed_create =? 1 then (None, 3%nat, Some (E KEIO))
+    else (Some [9;9]%N, 2%nat, Some (E KEIO)).
+Proof. vm_compute. reflexivity. Qed.
+Example C12_ex_create_call_numbers :
+  create_call c12_old c12_f 0 = 1%nat /\ create_call m_init c12_f 0 = 2%nat /\
+  c12_run m_init (fault_single 2 (FltFail (E KEIO))) =
+    (None, if copyfile_removes_after_failed_create =? 1 then 4%nat else 3%nat, Some (E KEIO)).
+Proof. vm_compute. repeat split; reflexivity. Qed.
 Example C12_ex_old_copy_truncated_then_removed :
   c12_run c12_old (fault_single 2 (FltShort 2)) = (None, 5%nat, Some (E KShortWrite)).
 Proof. vm_compute. reflexivity. Qed.
